@@ -60,15 +60,48 @@ Proof.
   repeat (destruct E as [E|E]; [discriminate|]). contradiction.
 Qed.
 
+(** ** the create-new retry loop of `create_staging`: the staging file the server writes to was CREATED by this call
+    (`create_new`: the name did not exist - a leftover of a killed server, or another server's live staging file, is
+    never reused or truncated); every name tried before it existed; any other error ends the call with that error *)
+Theorem create_staging_spec (fuel : nat) (open_new : list Z -> opened) (dst : list Z) (pid : Z) (nanos : Z -> Z) (seq : Z) (r : option (list Z)) :
+  g_create_staging fuel open_new dst pid nanos seq = Some r ->
+  exists k : nat,
+    (forall j : nat, (j < k)%nat -> open_new (g_staging_name dst pid (nanos (seq + Z.of_nat j)) (seq + Z.of_nat j)) = AlreadyExists) /\
+    let tmp := g_staging_name dst pid (nanos (seq + Z.of_nat k)) (seq + Z.of_nat k) in
+    match r with
+    | Some name => name = tmp /\ open_new tmp = Created
+    | None => open_new tmp = OtherError
+    end.
+Proof.
+  revert seq. induction fuel as [|f IH]; intros seq He; cbn [g_create_staging] in He; [discriminate|]. cbv zeta in He.
+  destruct (open_new (g_staging_name dst pid (nanos seq) seq)) eqn:Eo.
+  - exists O. split; [intros j Hj; lia|]. cbv zeta. rewrite Z.add_0_r. inversion He; subst. split; [reflexivity|exact Eo].
+  - destruct (IH (seq + 1) He) as (k & Hbefore & Hat). exists (S k). split.
+    + intros j Hj. destruct j as [|j]; [rewrite Z.add_0_r; exact Eo|].
+      replace (seq + Z.of_nat (S j)) with (seq + 1 + Z.of_nat j) by lia. apply Hbefore. lia.
+    + replace (seq + Z.of_nat (S k)) with (seq + 1 + Z.of_nat k) by lia. exact Hat.
+  - exists O. split; [intros j Hj; lia|]. cbv zeta. rewrite Z.add_0_r. inversion He; subst. exact Eo.
+Qed.
+
+Corollary create_staging_never_reuses_a_name fuel open_new dst pid nanos seq name :
+  g_create_staging fuel open_new dst pid nanos seq = Some (Some name) -> open_new name = Created.
+Proof. intros He. destruct (create_staging_spec _ _ _ _ _ _ _ He) as (k & _ & Hat). cbv zeta in Hat. destruct Hat as [-> Hc]. exact Hc. Qed.
+
 Definition conflict_name_is_translation : Prop :=
   (forall h, g_short_hex h = hex12 h) /\ (forall h, g_short_hash h = hex12 h) /\
   (forall rel host d, g_loser_name rel host d = bi_cname host rel d) /\
   (forall dst d, g_hub_conflict_name dst d = SafeJoin.conflict_name dst (hex12 d)) /\
   (forall dst pid nanos seq, exists tail, g_staging_name dst pid nanos seq = dst ++ tail /\ ~ In 47%Z tail /\
-                                          exists pre, tail = pre ++ SafeJoin.copia_tmp).
+                                          exists pre, tail = pre ++ SafeJoin.copia_tmp) /\
+  (forall fuel open_new dst pid nanos seq name, g_create_staging fuel open_new dst pid nanos seq = Some (Some name) ->
+     open_new name = Created /\ exists k : nat, name = g_staging_name dst pid (nanos (seq + Z.of_nat k)) (seq + Z.of_nat k) /\
+       forall j : nat, (j < k)%nat -> open_new (g_staging_name dst pid (nanos (seq + Z.of_nat j)) (seq + Z.of_nat j)) = AlreadyExists).
 Lemma conflict_name_is_translation_holds : conflict_name_is_translation.
 Proof.
   split; [exact tie_short_hex|]. split; [exact tie_short_hash|]. split; [exact tie_loser_name|]. split; [exact tie_hub_conflict_name|].
+  split.
+  2:{ intros fuel open_new dst pid nanos seq name He. split; [exact (create_staging_never_reuses_a_name _ _ _ _ _ _ _ He)|].
+      destruct (create_staging_spec _ _ _ _ _ _ _ He) as (k & Hb & Hat). cbv zeta in Hat. destruct Hat as [Hn _]. exists k. split; [exact Hn|exact Hb]. }
   intros dst pid nanos seq. exists (staging_tail pid nanos seq). split; [apply tie_staging_name|]. split; [apply staging_name_is_a_sibling|].
   exists ([46] ++ dec pid ++ [46] ++ hexz nanos ++ [46] ++ dec seq)%Z. unfold staging_tail. rewrite <- !app_assoc. reflexivity.
 Qed.
@@ -78,3 +111,10 @@ Example conflict_name_nonvacuous :
   = [102; 46; 99; 111; 110; 102; 108; 105; 99; 116; 45; 104; 45; 97; 98; 99; 100; 48; 49; 50; 51; 52; 53; 54; 55]%Z.
 Proof. vm_compute. reflexivity. Qed.
 
+
+(* a leftover under the first name: the loop moves on to the next sequence number *)
+Example create_staging_nonvacuous :
+  let first := g_staging_name [100] 7 5 0 in
+  g_create_staging 3 (fun n => if decide (n = first) then AlreadyExists else Created) [100] 7 (fun _ => 5) 0
+  = Some (Some (g_staging_name [100] 7 5 1)).
+Proof. vm_compute. reflexivity. Qed.
